@@ -63,40 +63,40 @@ func c09Pure(c *ctx) {
 		if bad {
 			continue
 		}
+		// one factory per type: a fresh object for the same moment every time it is asked
+		lunarOf := func() *calendar.Lunar { s2, _ := safeSolar(m[0], m[1], m[2], m[3], m[4], m[5]); return s2.GetLunar() }
+		fac := map[string]func() interface{}{
+			"Solar":         func() interface{} { s2, _ := safeSolar(m[0], m[1], m[2], m[3], m[4], m[5]); return s2 },
+			"Lunar":         func() interface{} { return lunarOf() },
+			"EightChar":     func() interface{} { return lunarOf().GetEightChar() },
+			"LunarTime":     func() interface{} { return lunarOf().GetTime() },
+			"LunarYear":     func() interface{} { return calendar.NewLunarYear(lunarOf().GetYear()) },
+			"LunarMonth":    func() interface{} { l := lunarOf(); return calendar.NewLunarMonthFromYm(l.GetYear(), l.GetMonth()) },
+			"Tao":           func() interface{} { return lunarOf().GetTao() },
+			"Foto":          func() interface{} { return lunarOf().GetFoto() },
+			"SolarWeek":     func() interface{} { return calendar.NewSolarWeekFromYmd(m[0], m[1], m[2], 1) },
+			"SolarMonth":    func() interface{} { return calendar.NewSolarMonthFromYm(m[0], m[1]) },
+			"SolarYear":     func() interface{} { return calendar.NewSolarYearFromYear(m[0]) },
+			"SolarSeason":   func() interface{} { return calendar.NewSolarSeasonFromYm(m[0], m[1]) },
+			"SolarHalfYear": func() interface{} { return calendar.NewSolarHalfYearFromYm(m[0], m[1]) },
+			"NineStar":      func() interface{} { return lunarOf().GetDayNineStar() },
+			"JieQi":         func() interface{} { return lunarOf().GetPrevJieQi() },
+			"Yun":           func() interface{} { return lunarOf().GetEightChar().GetYun(1) },
+			"DaYun":         func() interface{} { return lunarOf().GetEightChar().GetYun(1).GetDaYun()[1] },
+			"LiuNian":       func() interface{} { return lunarOf().GetEightChar().GetYun(1).GetDaYun()[1].GetLiuNian()[0] },
+			"ShuJiu":        func() interface{} { return lunarOf().GetShuJiu() },
+			"Fu":            func() interface{} { return lunarOf().GetFu() },
+			"Holiday":       func() interface{} { return HolidayUtil.GetHoliday(s.ToYmd()) },
+		}
 		objs := map[string]interface{}{}
-		try(func() {
-			l := s.GetLunar()
-			ec := l.GetEightChar()
-			objs["Solar"], objs["Lunar"], objs["EightChar"], objs["LunarTime"] = s, l, ec, l.GetTime()
-			objs["LunarYear"] = calendar.NewLunarYear(l.GetYear())
-			objs["LunarMonth"] = calendar.NewLunarMonthFromYm(l.GetYear(), l.GetMonth())
-			objs["Tao"], objs["Foto"] = l.GetTao(), l.GetFoto()
-			objs["SolarWeek"] = calendar.NewSolarWeekFromYmd(m[0], m[1], m[2], 1)
-			objs["SolarMonth"] = calendar.NewSolarMonthFromYm(m[0], m[1])
-			objs["SolarYear"] = calendar.NewSolarYearFromYear(m[0])
-			objs["SolarSeason"] = calendar.NewSolarSeasonFromYm(m[0], m[1])
-			objs["SolarHalfYear"] = calendar.NewSolarHalfYearFromYm(m[0], m[1])
-			objs["NineStar"] = l.GetDayNineStar()
-			objs["JieQi"] = l.GetPrevJieQi()
-			yun := ec.GetYun(1)
-			objs["Yun"] = yun
-			dys := yun.GetDaYun()
-			if len(dys) > 1 {
-				objs["DaYun"] = dys[1]
-				if ln := dys[1].GetLiuNian(); len(ln) > 0 {
-					objs["LiuNian"] = ln[0]
+		for tn, f := range fac {
+			try(func() {
+				x := f()
+				if v := reflect.ValueOf(x); v.IsValid() && !(v.Kind() == reflect.Ptr && v.IsNil()) {
+					objs[tn] = x
 				}
-			}
-			if sj := l.GetShuJiu(); sj != nil {
-				objs["ShuJiu"] = sj
-			}
-			if fu := l.GetFu(); fu != nil {
-				objs["Fu"] = fu
-			}
-			if h := HolidayUtil.GetHoliday(s.ToYmd()); h != nil {
-				objs["Holiday"] = h
-			}
-		})
+			})
+		}
 		rows := [][]interface{}{}
 		for tn, x := range objs {
 			v := reflect.ValueOf(x)
@@ -104,6 +104,31 @@ func c09Pure(c *ctx) {
 				continue
 			}
 			t := v.Type()
+			// every zero-argument accessor alone on a fresh object, against the same accessor after all the others were
+			// called (twice over, in method order) on another object
+			if f, ok := fac[tn]; ok {
+				seq := f()
+				fwd := callZeroArg(seq, nil)
+				again := callZeroArg(seq, nil)
+				for gi := len(fwd) - 1; gi >= 0; gi-- {
+					g := fwd[gi]
+					iso, after, second := "", g.render, again[gi].render
+					if g.panic {
+						after = "PANIC " + g.msg
+					}
+					if again[gi].panic {
+						second = "PANIC " + again[gi].msg
+					}
+					try(func() {
+						fresh := reflect.ValueOf(f())
+						p, msg := try(func() { iso = render(fresh.MethodByName(g.name).Call(nil)[0], 0) })
+						if p {
+							iso = "PANIC " + msg
+						}
+					})
+					rows = append(rows, []interface{}{tn, g.name, "alone vs after the others", sha12(iso), sha12(after), sha12(iso), sha12(second), 0})
+				}
+			}
 			// all zero-argument accessors together, twice
 			d0 := digest(x, nil)
 			d1 := digest(x, nil)
